@@ -148,7 +148,7 @@ class InterpreterAnalyzer(ASTTemplate):
         finally:
             # Never leave the name of the statement under analysis behind (e.g. after an error):
             # later error messages of the process would mention it.
-            vtlengine.Exceptions.dataset_output = None  # type: ignore[attr-defined]
+            vtlengine.Exceptions.set_dataset_output(None)
 
     def _visit_start_impl(self, node: AST.Start) -> Any:
         set_current_registry(ViralPropagationRegistry())
@@ -158,7 +158,7 @@ class InterpreterAnalyzer(ASTTemplate):
         invalid_scalar_outputs = []
         for child in node.children:
             if isinstance(child, (AST.Assignment, AST.PersistentAssignment)):
-                vtlengine.Exceptions.dataset_output = child.left.value  # type: ignore[attr-defined]
+                vtlengine.Exceptions.set_dataset_output(child.left.value)
                 _verif.yield_point("dataset_output:set")
             if not isinstance(
                 child,
@@ -184,7 +184,7 @@ class InterpreterAnalyzer(ASTTemplate):
                     if vp_registry.rule_for(viral_comp) is None:
                         raise SemanticError("1-3-3-6", name=viral_comp.name)
 
-            vtlengine.Exceptions.dataset_output = None
+            vtlengine.Exceptions.set_dataset_output(None)
             _verif.yield_point("dataset_output:clear")
             self.datasets[result.name] = copy(result)
             results[result.name] = result
